@@ -372,4 +372,77 @@ def closeBalance (c : Ctx) : Res Out := do
   let (b', x') ← Bank.closeBalanceOp b (toBal s) c.now
   .ok { slots := writeSlot c c.a.slots i x', books := b', tokens := 0, window := c.g.window }
 
+/-! ### the protocol as a state machine over whole instructions
+
+Any number of margin accounts and banks of one group; a step is one of the five whole instructions by any signer on any
+(account, bank) pair with any arguments, or the passage of time. A refused instruction leaves the state as it was (the
+transaction is rolled back). Two ghost counters per bank record the shares that complete withdrawals / repayments and balance
+closures abandon in the bank totals (the other-side residue of the closed position, which the code checked to be worth less
+than the dust threshold). The vault balance an instruction sees (only read by the completed-deleverage pay-out) is an
+argument of the step: the theorems hold whatever it is. -/
+
+structure WBank where
+  v : BankV
+  risk : Risk.BankR        -- risk parameters; asv / lsv / sa are taken from the books
+  feed : Risk.Feed
+  deriving Repr
+
+structure WState where
+  now : Int
+  g : GroupV
+  accts : List AcctV
+  banks : List WBank
+  dustA : Nat → Int        -- ghost, by bank key
+  dustL : Nat → Int
+
+inductive WOp
+  | deposit (ai bi signer : Nat) (amount : Int) (upTo : Bool)
+  | withdraw (ai bi signer : Nat) (amount : Int) (all : Bool) (vault : Int)
+  | borrow (ai bi signer : Nat) (amount : Int)
+  | repay (ai bi signer : Nat) (amount : Int) (all : Bool)
+  | close (ai bi signer : Nat)
+  | tick (dt : Nat)
+
+def WBank.riskB (b : WBank) : RiskB :=
+  { key := b.v.key, r := { b.risk with asv := b.v.books.asv, lsv := b.v.books.lsv, sa := b.v.books.sa }, feed := b.feed }
+
+def WState.ctx (w : WState) (a : AcctV) (b : WBank) (signer vault : Nat) (vaultAmount : Int) : Ctx :=
+  { now := w.now, g := w.g, a, signer, b := b.v, vaultKey := vault, vaultAmount, risk := w.banks.map WBank.riskB }
+
+/-- the active slot an account holds in a bank (what a closure abandons is read from it) -/
+def slotOf (a : AcctV) (key : Nat) : Account.Slot :=
+  match Account.findIdx a.slots key with
+  | some i => a.slots[i]?.getD Account.emptySlot
+  | none => Account.emptySlot
+
+def bump (f : Nat → Int) (k : Nat) (d : Int) : Nat → Int := fun j => if j = k then f j + d else f j
+
+/-- commit the outcome of an instruction on account `ai` and bank `bi` -/
+def WState.commit (w : WState) (ai bi : Nat) (a : AcctV) (b : WBank) (o : Out) (dA dL : Int) : WState :=
+  { w with
+    g := { w.g with window := o.window },
+    accts := w.accts.set ai { a with slots := o.slots },
+    banks := w.banks.set bi { b with v := { b.v with books := o.books } },
+    dustA := bump w.dustA b.v.key dA,
+    dustL := bump w.dustL b.v.key dL }
+
+def WState.step (w : WState) (op : WOp) : WState :=
+  let go (ai bi signer : Nat) (vaultAmount : Int) (run : Ctx → Res Out) (dust : Account.Slot → Int × Int) : WState :=
+    match w.accts[ai]?, w.banks[bi]? with
+    | some a, some b =>
+      -- (the instruction is given the bank's own liquidity vault: substitutions are refused by the account checks)
+      match run (w.ctx a b signer b.v.liquidityVault vaultAmount) with
+      | .ok o => let d := dust (slotOf a b.v.key); w.commit ai bi a b o d.1 d.2
+      | .error _ => w
+    | _, _ => w
+  match op with
+  | .deposit ai bi signer amount upTo => go ai bi signer 0 (fun c => deposit c amount upTo) (fun _ => (0, 0))
+  | .withdraw ai bi signer amount all vault => go ai bi signer vault (fun c => withdraw c amount all) (fun s => (0, if all then s.l else 0))
+  | .borrow ai bi signer amount => go ai bi signer 0 (fun c => borrow c amount) (fun _ => (0, 0))
+  | .repay ai bi signer amount all => go ai bi signer 0 (fun c => repay c amount all) (fun s => (if all then s.a else 0, 0))
+  | .close ai bi signer => go ai bi signer 0 (fun c => closeBalance c) (fun s => (s.a, s.l))
+  | .tick dt => { w with now := w.now + dt }
+
+def WState.run (w : WState) (ops : List WOp) : WState := ops.foldl WState.step w
+
 end Mfi.World
